@@ -38,14 +38,15 @@ pub fn truths() -> Vec<Truth> {
     ]
 }
 
-/// Weakenings of a word truth: (width known?, position on the chain). Fixed-width usages always carry their width.
+/// Weakenings of a word truth: (width known?, position on the chain). Fixed-width usages may arrive with or without their width (round 8).
 pub fn weakenings(t: &Truth) -> Vec<J> {
     let mut v = vec![J::Any];
     for (i, u) in t.chain.iter().enumerate() {
         let fixed = u.size().is_some();
-        if !fixed {
-            v.push(J::Word(None, usage_index(*u)));
-        }
+        // round 8: a sized usage may also arrive without its width (`TE::word(None, Address)` can be built through
+        // the public constructors even though no lifting rule emits it)
+        let _ = fixed;
+        v.push(J::Word(None, usage_index(*u)));
         v.push(J::Word(Some(t.width), usage_index(*u)));
         let _ = i;
     }
@@ -153,7 +154,13 @@ pub fn check_outcome(c: &Case, out: &Outcome) -> Result<(), Verdict> {
         match exp {
             Some((w, u)) => {
                 let want = TE::word(*w, USAGES[*u as usize]);
-                if got.len() != 1 || got[0] != want {
+                // when no piece of evidence knows the width and the usage has an intrinsic one, filling it in is as
+                // specific as leaving it open: both are accepted (don't-care)
+                let filled = match (w, USAGES[*u as usize].size()) {
+                    (None, Some(sz)) => Some(TE::word(Some(sz), USAGES[*u as usize])),
+                    _ => None,
+                };
+                if got.len() != 1 || (got[0] != want && Some(&got[0]) != filled.as_ref()) {
                     let kind = if got.iter().any(|e| matches!(e, TE::Conflict { .. })) {
                         "conflict-on-compatible-evidence"
                     } else {
@@ -595,6 +602,7 @@ impl Check for C15 {
     fn assumptions(&self, _tier: Tier) -> Vec<String> {
         vec![
             "Address above Numeric / Unsigned follows the tool's documented compatibility table (expression.rs: \"Addresses are often used numerically\"); Signed against Address is a contradiction".into(),
+            "a sized usage (address, bool, selector, function) may arrive without its width; when no evidence of a class knows the width, a result that fills in the usage's intrinsic width is accepted like one that leaves it open".into(),
             "mixes the statement calls neither plainly compatible nor plainly contradictory (dynamic bytes or arrays against small words, packed against words) are not generated".into(),
         ]
     }
